@@ -6,6 +6,8 @@ package mc
 import (
 	"errors"
 	"fmt"
+	"net"
+	"sort"
 	"strings"
 
 	"github.com/pascaldekloe/mqtt"
@@ -16,6 +18,7 @@ type Op struct {
 	Topic   string
 	Msg     []byte
 	Filters []string
+	Key     uint
 	Quit    int // 0 nil, 1 open and never closed, 2 closed before the call, 3 closed by a scheduler event
 }
 
@@ -48,6 +51,24 @@ type actor struct {
 	results   []Result
 	finished  bool
 	inCall    bool
+	pend      []func() // observations handed to the root, which logs them at quiescence in actor order
+}
+
+// later queues an observation: several goroutines may return from their calls
+// in the same scheduler step (woken by one close or by a map-ordered
+// broadcast), the order in which they get to run is not the explorer's.
+func (a *actor) later(f func()) { a.pend = append(a.pend, f) }
+
+func (w *World) collectObservations() {
+	for _, a := range w.actors {
+		if len(a.pend) > 0 {
+			p := a.pend
+			a.pend = nil
+			for _, f := range p {
+				f()
+			}
+		}
+	}
 }
 
 type Result struct {
@@ -183,6 +204,7 @@ func (a *actor) runOps(t *thread) {
 		a.inCall = true
 		var err error
 		var ch <-chan error
+		fsResult := ""
 		switch op.Kind {
 		case "pub0":
 			err = c.Publish(quit, op.Msg, op.Topic)
@@ -214,6 +236,22 @@ func (a *actor) runOps(t *thread) {
 			<-c.Online()
 		case "offline":
 			<-c.Offline()
+		case "fs-save":
+			err = w.fsStore.Save(op.Key, net.Buffers{op.Msg[:len(op.Msg)/2], op.Msg[len(op.Msg)/2:]})
+		case "fs-delete":
+			err = w.fsStore.Delete(op.Key)
+		case "fs-load":
+			var b []byte
+			b, err = w.fsStore.Load(op.Key)
+			fsResult = fmt.Sprintf("%q", b)
+			if b == nil {
+				fsResult = "absent"
+			}
+		case "fs-list":
+			var keys []uint
+			keys, err = w.fsStore.List()
+			sort.Slice(keys, func(i, j int) bool { return keys[i] < keys[j] })
+			fsResult = fmt.Sprintf("%x", keys)
 		default:
 			panic("unknown op " + op.Kind)
 		}
@@ -227,11 +265,18 @@ func (a *actor) runOps(t *thread) {
 		res := Result{Op: op, Idx: i, Err: err, Class: classify(err)}
 		if ch != nil {
 			res.X = &xch{actor: a.spec.Name, idx: i, op: op, ch: ch, gen: a.gen}
-			w.xchs = append(w.xchs, res.X)
 		}
-		a.results = append(a.results, res)
-		a.pc = i + 1
-		w.ev(Event{K: "ret", T: a.spec.Name, S: op.Kind, N: i, R: res.Class})
+		if fsResult != "" && err == nil {
+			res.Class = fsResult
+		}
+		a.later(func() {
+			if res.X != nil {
+				w.xchs = append(w.xchs, res.X)
+			}
+			a.results = append(a.results, res)
+			a.pc = i + 1
+			w.ev(Event{K: "ret", T: a.spec.Name, S: op.Kind, N: i, R: res.Class})
+		})
 	}
 }
 
@@ -272,8 +317,6 @@ func (a *actor) runReader(t *thread) {
 		if errors.As(err, &big) {
 			d.Big, d.BigSize, d.BigTopic = true, big.Size, big.Topic
 		}
-		w.deliveries = append(w.deliveries, &d)
-		a.pc = n + 1
 		e := Event{K: "ret", T: a.spec.Name, S: "rs", N: n, R: d.Class}
 		if err == nil {
 			e.B = append(append(clone(topic), 0), msg...)
@@ -282,14 +325,22 @@ func (a *actor) runReader(t *thread) {
 		} else {
 			e.R += " " + err.Error()
 		}
-		w.ev(e)
+		dp := &d
+		a.later(func() {
+			w.deliveries = append(w.deliveries, dp)
+			a.pc = n + 1
+			w.ev(e)
+		})
 		if d.Big && rs.ReadBig {
 			w.sch.park(t, "app:readall", kindApp)
 			if a.dead() {
 				return
 			}
-			d.BigBody, d.BigErr = big.ReadAll()
-			w.ev(Event{K: "readall", T: a.spec.Name, N: n, B: clone(d.BigBody), R: errStr(d.BigErr)})
+			body, berr := big.ReadAll()
+			a.later(func() {
+				dp.BigBody, dp.BigErr = body, berr
+				w.ev(Event{K: "readall", T: a.spec.Name, N: n, B: clone(body), R: errStr(berr)})
+			})
 		}
 		if errors.Is(err, mqtt.ErrClosed) {
 			return
